@@ -147,3 +147,63 @@ theorem eraseRegs_updateFromModeS (p : Plane) (m : Msg) (r : Bool) :
     eraseRegs_stage17]
 
 end Sq
+
+namespace Sq
+
+/-- everything `Plane::update` may assign -/
+def eraseUpd (p : Plane) : Plane :=
+  eraseModeS (eraseExt { p with timestamp := 0, lastDf := 0, squawk := none })
+
+/-- everything the default path (`update_from_downlink`) may assign -/
+def eraseDl (p : Plane) : Plane := eraseExt { p with timestamp := 0, squawk := none, icao := 0 }
+
+theorem eraseUpd_of_eraseModeS {x y : Plane} (h : eraseModeS x = eraseModeS y) : eraseUpd x = eraseUpd y := by
+  have e : ∀ z, eraseUpd z = eraseExt { (eraseModeS z) with timestamp := 0, lastDf := 0, squawk := none } :=
+    fun _ => rfl
+  rw [e, e, h]
+
+theorem eraseUpd_of_eraseExt {x y : Plane} (h : eraseExt x = eraseExt y) : eraseUpd x = eraseUpd y := by
+  have e : ∀ z, eraseUpd z = eraseModeS { (eraseExt z) with timestamp := 0, lastDf := 0, squawk := none } :=
+    fun _ => rfl
+  rw [e, e, h]
+
+theorem eraseDl_of_eraseExt {x y : Plane} (h : eraseExt x = eraseExt y) : eraseDl x = eraseDl y := by
+  have e : ∀ z, eraseDl z = { (eraseExt z) with timestamp := 0, squawk := none, icao := 0 } := fun _ => rfl
+  rw [e, e, h]
+
+/-- `Plane::update` touches nothing outside `eraseUpd` -/
+theorem eraseUpd_update (env : Env) (now : Int) (p : Plane) (m : Msg) (df : Nat) (r : Bool) :
+    eraseUpd (p.update env now m df r) = eraseUpd p := by
+  unfold Plane.update
+  simp only
+  generalize hp1 : Plane.updateFromBcast { p with timestamp := now, lastDf := df } m df = p1
+  have h1 : eraseUpd p1 = eraseUpd p := by rw [← hp1]; rfl
+  generalize hp2 : (if df = 17 ∨ df = 18 then p1.updateFromExt env m df else p1) = p2
+  have h2 : eraseUpd p2 = eraseUpd p1 := by
+    rw [← hp2]; split
+    · exact eraseUpd_of_eraseExt (eraseExt_updateFromExt env p1 m df)
+    · rfl
+  split
+  · rw [eraseUpd_of_eraseModeS (eraseModeS_updateFromModeS p2 m r), h2, h1]
+  · rw [h2, h1]
+
+/-- the default path touches nothing outside `eraseDl` -/
+theorem eraseDl_updateFromDownlink (env : Env) (now : Int) (p : Plane) (dl : DFRec) :
+    eraseDl (p.updateFromDownlink env now dl) = eraseDl p := by
+  unfold Plane.updateFromDownlink
+  cases dl with
+  | srt v => simp only [Plane.amendSrt]; split <;> rfl
+  | ext v => simp only; rw [eraseDl_of_eraseExt (eraseExt_amendExt env _ v)]; rfl
+  | mds i => rfl
+
+/-- any projection that both erasers leave alone is untouched by either update path -/
+theorem applyFrame_preserves {α : Type} (f : Plane → α) (hU : ∀ q, f (eraseUpd q) = f q)
+    (hD : ∀ q, f (eraseDl q) = f q)
+    (env : Env) (cfg : DecodeCfg) (now : Int) (p : Plane) (dl : DFRec) (m : Msg) (df : Nat) :
+    f (applyFrame env cfg now p dl m df) = f p := by
+  unfold applyFrame
+  split
+  · rw [← hD, eraseDl_updateFromDownlink, hD]
+  · rw [← hU, eraseUpd_update, hU]
+
+end Sq
